@@ -83,6 +83,15 @@ UpdateAll(set) ==
   /\ ret' = [op |-> "upd", ok |-> AllAccepted(new), rows |-> <<>>]
   /\ UNCHANGED <<schema, disk, gen>>
 
+\* a statement (INSERT or UPDATE) that names a column the table does not have is refused as a whole, whatever its other
+\* values are: a value is never accepted and then not stored
+UnknownColumn(op) ==
+  /\ nmut' = nmut + 1
+  /\ warm' = TRUE
+  /\ abs' = abs /\ mem' = Load /\ dirty' = dirty
+  /\ ret' = [op |-> op, ok |-> FALSE, rows |-> <<>>]
+  /\ UNCHANGED <<schema, disk, gen>>
+
 Flush == /\ disk' = Load /\ mem' = Load /\ dirty' = FALSE
          /\ ret' = [op |-> "flush", ok |-> TRUE, rows |-> <<>>]
          /\ UNCHANGED <<schema, abs, warm, gen, nmut>>
